@@ -76,13 +76,77 @@ def run_variant(v):
         shutil.rmtree(d, ignore_errors=True)
 
 
-def run_property(pid=None, jobs=16):
+def _copy_repo(d, with_maps):
+    pk = os.path.join(d, 'pyx12')
+    os.makedirs(pk)
+    for name in os.listdir(os.path.join(REPO, 'pyx12')):
+        src = os.path.join(REPO, 'pyx12', name)
+        if name in ('test', 'tests', '__pycache__'):
+            continue
+        dst = os.path.join(pk, name)
+        if name == 'map' and not with_maps:
+            os.symlink(src, dst)
+        elif os.path.isdir(src):
+            shutil.copytree(src, dst, ignore=shutil.ignore_patterns('__pycache__'))
+        else:
+            shutil.copy(src, dst)
+    shutil.copy(os.path.join(REPO, 'setup.py'), os.path.join(d, 'setup.py'))
+
+
+def run_patch(job):
+    """stored multi-line changes: seeded/<id>/patch.diff must be reported (exit 1) by the check of the property it
+    breaks, benign/<id>/patch.diff (a behaviour-preserving refactoring) must leave the check silent"""
+    kind, name, patch, pid = job
+    vid = '%s:%s' % (kind, name)
+    d = tempfile.mkdtemp(prefix='vsp_', dir=_scratch_base())
+    try:
+        with open(patch, encoding='utf-8', errors='replace') as fd:
+            touches_map = 'pyx12/map/' in fd.read()
+        _copy_repo(d, touches_map)
+        r = subprocess.run(['patch', '-p1', '-s', '--no-backup-if-mismatch', '-i', patch], cwd=d, capture_output=True, text=True)
+        if r.returncode:
+            return (vid, False, 'stored patch does not apply any more: refresh it (%s)' % (r.stdout + r.stderr).strip()[:120])
+        r = subprocess.run([sys.executable, os.path.join(VERIF, 'sa', 'check.py'), pid, '--repo', d, '--no-evidence', '--no-selftest',
+                            '--evidence-dir', os.path.join(d, 'ev')], capture_output=True, text=True, timeout=600)
+        hits = [l.strip() for l in r.stdout.splitlines() if l.startswith('  pyx12') or l.startswith('ANALYSIS-ERROR')]
+        if kind == 'seeded':
+            if r.returncode == 1:
+                return (vid, True, (hits or ['reported'])[0][:200])
+            return (vid, False, 'seeded change is not reported (exit %d)' % r.returncode)
+        if r.returncode == 0:
+            return (vid, True, 'silent')
+        return (vid, False, 'behaviour-preserving refactoring raised an alarm (exit %d): %s' % (r.returncode, ' | '.join(h[:140] for h in hits[:2])))
+    except Exception as e:  # noqa
+        return (vid, False, 'self-test harness error: %s: %s' % (type(e).__name__, e))
+    finally:
+        shutil.rmtree(d, ignore_errors=True)
+
+
+def patch_jobs(pid):
+    import glob
+    jobs = []
+    for p in sorted(glob.glob(os.path.join(VERIF, 'seeded', '*', 'patch.diff'))):
+        name = os.path.basename(os.path.dirname(p))
+        if pid is None or name.split('-')[0] == pid:
+            jobs.append(('seeded', name, p, name.split('-')[0]))
+    if pid is not None:
+        for p in sorted(glob.glob(os.path.join(VERIF, 'benign', '*', 'patch.diff'))):
+            jobs.append(('benign', os.path.basename(os.path.dirname(p)), p, pid))
+    return jobs
+
+
+def run_property(pid=None, jobs=16, patches=True):
     from selftest.variants import VARIANTS
     vs = [v for v in VARIANTS if pid is None or v[1] == pid]
     results = []
     if vs:
         with concurrent.futures.ThreadPoolExecutor(max_workers=max(1, min(jobs, len(vs)))) as ex:
             results = list(ex.map(run_variant, vs))
+    pj = patch_jobs(pid) if patches and shutil.which('patch') else []
+    if pj:
+        with concurrent.futures.ThreadPoolExecutor(max_workers=max(1, min(jobs, len(pj)))) as ex:
+            results += list(ex.map(run_patch, pj))
+        vs = vs + [(j[0] + ':' + j[1], j[3], '', '', '', 'break' if j[0] == 'seeded' else 'benign', None) for j in pj]
     failed = ['%s: %s' % (vid, msg) for vid, ok, msg in results if not ok]
     nb = sum(1 for v in vs if v[5] == 'break')
     return {'summary': {'variants': len(vs), 'breaking': nb, 'benign': len(vs) - nb, 'passed': sum(1 for r in results if r[1]),
@@ -91,8 +155,8 @@ def run_property(pid=None, jobs=16):
 
 
 if __name__ == '__main__':
-    pid = sys.argv[1] if len(sys.argv) > 1 else None
-    res = run_property(pid)
+    pid = sys.argv[1] if len(sys.argv) > 1 and not sys.argv[1].startswith('-') else None
+    res = run_property(pid, patches='--patches' in sys.argv or pid is not None)
     for vid, ok, msg in res['results']:
         print('%s %-40s %s' % ('ok  ' if ok else 'FAIL', vid, msg[:150]))
     s = res['summary']
